@@ -292,9 +292,11 @@ def run(ck):
         inputs["pd_gauss"] = pdephs["Gaussian"]; inputs["pd_lorentz"] = pdephs["Lorentzian"]
         base = snapshot(inputs)
 
-        def call_tensor(tk, in_units):
+        def call_tensor(tk, in_units, recalc=True):
             theory, opts, bname = tk
             o = dict(opts)
+            if not recalc:
+                o["recalculate"] = False          # the request may reuse what the aggregate has; the answer must be the same
             if "coupling_cutoff" in o:
                 o["coupling_cutoff"] = cut_cm if in_units else cut_int
             with quiet():
@@ -317,6 +319,10 @@ def run(ck):
         dk = "Gaussian" if s % 3 != 2 else "Lorentzian"
         plan += [("propdeph", dk, 0), ("propdeph", dk, 1), ("esodeph", dk)]
         plan.append(("refused", s % 2 == 0))
+        if s % 3 == 0:
+            # requests of one theory with different options, some of them allowed to reuse the aggregate's stored tensor
+            plan += [("tensor", TKEYS[0], False, True), ("tensor", TKEYS[1], False, False), ("tensor", TKEYS[2], False, False),
+                     ("tensor", TKEYS[0], False, False), ("tensor", TKEYS[1], False, True), ("tensor", TKEYS[2], False, True)]
         if s % 2 == 1:
             plan += [("pop",), ("popmat", s % 3), ("pop",), ("popmat", -1), ("popmat", (s + 1) % 3), ("pop",)]
         if s % 2 == 0:
@@ -338,6 +344,8 @@ def run(ck):
         rest = plan[1:]
         rng.shuffle(rest)
         plan = [plan[0]] + rest
+        if s % 4 == 0:
+            plan += [("heom",), ("heomfree",), ("heom",), ("heomfree",)]     # the optional mode of the hierarchy run in between ordinary runs
         for ic in range(len(plan)):
             op = plan[ic][0]
             rec = dict(sys=s, call=ic, op=op, sysinp=sysinp)
@@ -347,9 +355,10 @@ def run(ck):
             try:
                 if op == "tensor":
                     tk, in_units = plan[ic][1], plan[ic][2]
+                    recalc_ = plan[ic][3] if len(plan[ic]) > 3 else True
                     key = ("tensor", tk[0], tk[1])
-                    rec.update(theory=tk[0], opts=dict(tk[1]), inside_energy_units=in_units)
-                    RT, hR, res = call_tensor(tk, in_units)
+                    rec.update(theory=tk[0], opts=dict(tk[1]), inside_energy_units=in_units, recalculate=recalc_)
+                    RT, hR, res = call_tensor(tk, in_units, recalc_)
                     if (tk[0], tk[1]) not in tensors and tk[0] != "combined_RedfieldFoerster" or (tk[0], tk[1]) not in tensors:
                         tensors[(tk[0], tk[1])] = (RT, hR)
                     line = "tensor %d" % names.index(tk[2]) if tk[2] in names else None
@@ -489,15 +498,15 @@ def run(ck):
                             rec["fresh_diff"] = dfresh
                         key = ("esodeph", plan[ic][1])
                         line = "pure 5"
-                elif op == "heom":
+                elif op in ("heom", "heomfree"):
                     if hprop is None:
                         with quiet():
                             hprop = agg.get_KTHierarchyPropagator(depth=2)
                     with quiet():
-                        rt = hprop.propagate(rho0)
+                        rt = hprop.propagate(rho0, free_hierarchy=True) if op == "heomfree" else hprop.propagate(rho0)
                     res = numpy.array(rt.data).ravel()
-                    key = ("heom",)
-                    line = "heom"
+                    key = (op,)
+                    line = "heom" if op == "heom" else None
                 elif op == "sv":
                     if "sv" not in props:
                         props["sv"] = StateVectorPropagator(ta, ham)
@@ -629,6 +638,7 @@ def run(ck):
         ck.traces += 1
 
     lindblad_stream(ck, numpy, snapshot, diff)
+    field_stream(ck, numpy)
     # ---- model ---------------------------------------------------------------------------------------------------------
     out = ck.drive(DRIVER, lines)
     if out is not None:
@@ -740,4 +750,80 @@ def lindblad_stream(ck, numpy, snapshot, diff):
                 first[c] = res
             hist.append(desc)
         ck.case(("lindblad-history", s, tuple(hist)), nontrivial=True, sites=nmol, calls=len(plan))
+        ck.traces += 1
+
+
+def field_stream(ck, numpy):
+    """propagation driven by laser fields (Efield = LabField(s) of a LabSetup, Trdip = the dipole operator, Hamiltonian with RWA): the
+    field objects, the lab set-up, Hamiltonian, tensor, dipole operator and initial state stay what they were, a repeated propagate()
+    gives the same evolution, and so does a fresh set of objects"""
+    from quantarhei import Molecule, Aggregate, TimeAxis, LabSetup, energy_units, eigenbasis_of, ReducedDensityMatrixPropagator
+    from quantarhei.qm import ProjectionOperator, SystemBathInteraction, LindbladForm
+    rng = ck.rng
+    quiet = lambda: contextlib.redirect_stdout(io.StringIO())
+    for s in range(ck.n(2, 8)):
+        e2 = 12100.0 + rng.randint(-60, 60); J = rng.choice([50.0, -80.0]); amp = rng.choice([0.05, 0.1]); nfield = 1 if s % 2 == 0 else 2
+        as_ops = (s % 4 >= 2)
+
+        def build():
+            with energy_units("1/cm"):
+                m1 = Molecule([0.0, 12000.0]); m1.set_dipole((0, 1), [1.0, 0.0, 0.0])
+                m2 = Molecule([0.0, e2]); m2.set_dipole((0, 1), [0.8, 0.6, 0.0])
+                agg = Aggregate(molecules=[m1, m2]); agg.set_resonance_coupling(0, 1, J)
+            agg.build()
+            HH = agg.get_Hamiltonian(); DD = agg.get_TransitionDipoleMoment()
+            sbi = SystemBathInteraction(sys_operators=[ProjectionOperator(1, 2, dim=HH.dim), ProjectionOperator(2, 1, dim=HH.dim)], rates=[1.0 / 100.0, 1.0 / 600.0])
+            LL = LindbladForm(HH, sbi, as_operators=as_ops)
+            time = TimeAxis(0.0, 120, 1.0, atype="complete")
+            lab = LabSetup(nopulses=3)
+            ppar = dict(ptype="Gaussian", FWHM=20, amplitude=amp)
+            lab.set_pulse_arrival_times([40.0, 60.0, 60.0])
+            lab.set_pulse_shapes(time, (ppar, ppar, ppar))
+            with eigenbasis_of(HH):
+                om = HH.data[1, 1] - HH.data[0, 0]
+            lab.set_pulse_frequencies([om, om * 1.001, om])
+            lab.set_pulse_polarizations([[1.0, 0.0, 0.0]] * 3)
+            fields = [lab.get_labfield(k) for k in range(nfield)]
+            rhoi = agg.get_thermal_ReducedDensityMatrix()
+            return HH, DD, LL, time, lab, fields, rhoi
+
+        def snap(HH, DD, LL, time, lab, fields, rhoi):
+            out = {"Hamiltonian": numpy.array(HH._data).copy(), "dipole operator": numpy.array(DD._data).copy(), "initial state": numpy.array(rhoi._data).copy(),
+                   "time axis": numpy.array(time.data).copy(), "pulse frequencies of the lab set-up": numpy.array(lab.omega, dtype=float).copy()}
+            if LL.as_operators:
+                out["tensor operators"] = numpy.concatenate([numpy.array(LL._Km).ravel(), numpy.array(LL._Lm).ravel()])
+            else:
+                out["tensor"] = numpy.array(LL._data).copy()
+            for k, f in enumerate(fields):
+                out["field %d" % k] = numpy.array(f.field).copy()
+                out["field %d frequency" % k] = numpy.array(f.get_center_frequency() if hasattr(f, "get_center_frequency") else f.om, dtype=float).copy() if (hasattr(f, "om") or hasattr(f, "get_center_frequency")) else numpy.zeros(1)
+            return out
+
+        inp = {"second_site_cm": e2, "coupling_cm": J, "amplitude": amp, "fields": nfield, "tensor_as_operators": as_ops}
+        ck.case(("field-driven", s, nfield, as_ops), nontrivial=True, sites=2, calls=2)
+        try:
+            with quiet():
+                objs = build()
+                HH, DD, LL, time, lab, fields, rhoi = objs
+                prop = ReducedDensityMatrixPropagator(timeaxis=time, Ham=HH, RTensor=LL, Efield=(fields[0] if nfield == 1 else fields), Trdip=DD)
+                s0 = snap(*objs)
+                r1 = numpy.array(prop.propagate(rhoi).data).copy()
+                s1 = snap(*objs)
+                r2 = numpy.array(prop.propagate(rhoi).data).copy()
+                fo = build()
+                pf = ReducedDensityMatrixPropagator(timeaxis=fo[3], Ham=fo[0], RTensor=fo[2], Efield=(fo[5][0] if nfield == 1 else fo[5]), Trdip=fo[1])
+                rf = numpy.array(pf.propagate(fo[6]).data).copy()
+        except Exception as e:
+            ck.fail("raises:field-driven", "field-driven propagation raised %r" % (e,), inp)
+            continue
+        for k in s0:
+            dv = float(numpy.abs(s0[k] - s1[k]).max()) if s0[k].shape == s1[k].shape else float("inf")
+            if dv > 1e-13 * max(1.0, float(numpy.abs(s0[k]).max())):
+                ck.fail("frame:field-driven", "a field-driven propagate() changed an object it was given: %s" % k, dict(inp, changed=k), dv)
+        if numpy.abs(r2 - r1).max() > 1e-10:
+            ck.fail("repeat:field-driven", "the same field-driven propagate() repeated on the same objects gives another evolution", inp, float(numpy.abs(r2 - r1).max()))
+        if numpy.abs(rf - r1).max() > 1e-10:
+            ck.fail("fresh:field-driven", "a fresh set of identical objects gives another evolution than the first run", inp, float(numpy.abs(rf - r1).max()))
+        if float(numpy.abs(r1[-1] - r1[0]).max()) < 1e-6:
+            ck.extra.setdefault("field_driven_no_effect", []).append(s)
         ck.traces += 1
